@@ -3,7 +3,16 @@ import common as C
 import gen as G
 
 THEOREMS = ['sort_result', 'sort_permutation', 'sort_sorted', 'sort_stable', 'nan_first_both_directions',
-            'cmp_strict_weak_order']
+            'cmp_strict_weak_order', 'sort_refines_spec_partial', 'sort_modelled_on_innermost_axis',
+            'last_axis_is_innermost', 'sort_refines_spec_innermost_axis', 'sort_refines_spec_axis_minus_one',
+            'sort_model_reads_and_writes_keys', 'sort_model_preserves_lengths', 'sort_model_no_cross_list_movement',
+            'str_cmp_irrefl', 'str_cmp_trans', 'str_cmp_total', 'str_cmp_lexicographic', 'str_cmp_ignores_flags',
+            'str_cmp_direction', 'str_cmp_strict_weak_order', 'sort_result_strings', 'strings_sort_as_units',
+            'sort_strings_equiv_is_same_bytes', 'sort_strings_ascending', 'sort_strings_descending',
+            'str_prefix_before_extension', 'sort_leaves_length', 'sortcols_ids', 'sortcols_rows', 'sortcols_columns',
+            'sortcols_columns_nonempty', 'sortcols_columns_empty', 'enumv_NoDup', 'sortcols_shape_partial',
+            'sort_spec_preserves_lengths_partial', 'no_cross_list_movement', 'sort_spec_no_cross_list_movement',
+            'argsort_realises_sort', 'argsort_positions', 'argsort_realises_sort_cols']
 RULE = ('value-first random layouts (numeric incl. NaN/inf floats, bool, strings; options at leaf and list level) x '
         '(sort | argsort) x axis x ascending x stable; argsort is run with stable=True (an unstable argsort is checked '
         'only through sort). non-trivial = some list along the axis has >= 2 elements; distinct by case text')
